@@ -212,12 +212,34 @@ def advertised(case):
     drop = set(case.get('drop') or ())
     return [a for a, _ in CAPS if a not in drop]
 
+HOOKS = ('ValueError', 'RuntimeError', 'OperationError', 'SessionError', 'RPCError')
+def make_handler(profile, hook=None):
+    """the device handler of `profile`; hook = name of an exception class: a CUSTOM handler class (device_params={'handler': cls},
+    documented) derived from the profile's, whose handle_raw_dispatch() hands an exception of that class back for every message
+    that cannot be parsed (what the junos profile does for some of them)"""
+    from ncclient import manager
+    dh = manager.make_device_handler({'name': profile})
+    if not hook: return dh
+    def make_exc(raw):
+        if hook == 'RPCError':
+            from ncclient.operations.rpc import RPCError
+            from ncclient.xml_ import to_ele
+            return RPCError(to_ele('<rpc-error xmlns="%s"><error-severity>error</error-severity><error-message>unparsable</error-message></rpc-error>' % NS))
+        from ncclient.transport import errors as TE
+        from ncclient.operations import errors as OE
+        import builtins
+        return (getattr(TE, hook, None) or getattr(OE, hook, None) or getattr(builtins, hook))('the device sent a message that cannot be parsed: %r' % raw[:20])
+    class Custom(type(dh)):
+        def handle_raw_dispatch(self, raw):
+            return make_exc(raw)
+    return manager.make_device_handler({'name': profile, 'handler': Custom})
+
 class Stand(object):
     """one session of the given transport class on a socketpair + its peer"""
-    def __init__(self, kind, profile, caps, base11=False, answer=0, chatter=False):
+    def __init__(self, kind, profile, caps, base11=False, answer=0, chatter=False, hook=None):
         from ncclient import manager
         self.kind = kind
-        self.dh = manager.make_device_handler({'name': profile})
+        self.dh = make_handler(profile, hook)
         self.a, self.b = socket.socketpair(socket.AF_UNIX, socket.SOCK_STREAM)
         self.srv = CapServer(self.b, caps, base11, answer, chatter); self.srv.start()
         self.transport = None
@@ -239,6 +261,33 @@ class Stand(object):
         m = manager.Manager(self.ses, self.dh, timeout=timeout)
         ma = manager.Manager(self.ses, self.dh, timeout=timeout); ma.async_mode = True
         return m, ma
+    def nonfatal(self, m, items, sync=True):
+        """the EARLIER part of the history: the peer sends payloads that are not XML (HOSTILE of lts.py, correctly framed).  What the
+        session makes of one is the business of C14 (dropped, or - profile / custom handler whose handle_raw_dispatch() hands an
+        exception back - broadcast to the listeners as an error); it is not a loss of the connection: the session goes on.  After
+        each the peer sends a notification and the application takes it (public API): the payload has been processed.
+        -> None or a text ('rig:' when the session did not survive: then there is no later loss to judge)"""
+        from .lts import HOSTILE
+        for k, v in enumerate(items):
+            p = HOSTILE[v % len(HOSTILE)].replace('{id}', self.srv.ids[-1] if self.srv.ids else 'urn:uuid:0').encode('utf-8')
+            try:
+                self.b.sendall(self.srv.frame(p))
+                if sync: self.srv.notify(700 + k)
+            except OSError:
+                return 'rig: the peer could not send the payload that is not XML'
+            if sync:
+                # earlier notifications (chatter) may still be queued: take them until the one sent behind the payload comes
+                end, seen = now() + 2.0, False
+                while not seen and now() < end:
+                    r = timed(lambda: m.take_notification(True, 0.5))
+                    if r is None or r[0] != 'value': break
+                    seen = r[1] is not None and ('>%d<' % (700 + k)) in r[1].notification_xml
+                if not seen: time.sleep(0.2)
+            else:
+                time.sleep(0.2)
+            if not (self.ses.connected and self.ses.is_alive()):
+                return 'rig: the session ended on a payload that is not XML (C14), before the loss'
+        return None
     def lose(self, loss, partial_for=None):
         if loss == 'inactive_first' and self.transport is not None:
             self.transport.active = False
@@ -343,11 +392,13 @@ def run_later(case):
     kind, profile, loss = case['kind'], case.get('profile', 'default'), case.get('loss', 'close')
     n_out, answered = case.get('n_out', 1), case.get('answered', 0)
     tag = '%s/%s%s' % (kind, profile, '/1.1' if case.get('base11') else '')
+    if case.get('hook'): tag += '/custom handler (handle_raw_dispatch returns %s)' % case['hook']
+    if case.get('nonfatal'): tag += ' after %d message(s) that could not be parsed (%s)' % (len(case['nonfatal']), case.get('nonfatal_at', 'first'))
     caps, adv = hello_caps(case), set(advertised(case))
     ops = table(profile)
     tie = case['_tie'] = dict(live=[], later=[], caps_known=None, has_id=None)
     # ---- the live twin: which calls of the table are requests (the peer receives an <rpc> for them) ----
-    twin = Stand(kind, profile, caps, case.get('base11'), answer=1 << 30)     # answers everything: every reply wakes the session thread, the queue drains fast
+    twin = Stand(kind, profile, caps, case.get('base11'), answer=1 << 30, hook=case.get('hook'))     # answers everything: every reply wakes the session thread, the queue drains fast
     requests = []
     try:
         twin.connect()
@@ -385,11 +436,15 @@ def run_later(case):
     if not requests:
         return 'rig: %s: no operation of the table is a request' % tag
     # ---- the session that is lost ----
-    st = Stand(kind, profile, caps, case.get('base11'), answer=answered)
+    st = Stand(kind, profile, caps, case.get('base11'), answer=answered, hook=case.get('hook'))
     try:
         st.connect()
         ses = st.ses
         m, ma = st.managers()
+        nf = case.get('nonfatal') or []
+        if nf and case.get('nonfatal_at', 'first') == 'first':
+            f = st.nonfatal(m, nf)
+            if f: return '%s %s: %s' % (f[:4], tag, f[5:])
         pick = case.get('out_ops') or [o['name'] for o in requests]
         outs = [o for o in requests if o['name'] in pick and o['name'] != 'locked'][:answered + n_out]
         held, issued = [], []
@@ -406,6 +461,22 @@ def run_later(case):
                     return 'rig: %s: %s was not answered' % (tag, o['name'])
             else:
                 held.append((o, rpc))
+        if nf and case.get('nonfatal_at', 'first') == 'mid':
+            # the requests outstanding NOW may be failed by the error the hook handed back (or not: C14); the ones made after it are
+            # outstanding at the loss
+            f = st.nonfatal(m, nf)
+            if f: return '%s %s: %s' % (f[:4], tag, f[5:])
+            old, held = held, []
+            for o, rpc in old:
+                if rpc.event.is_set(): continue
+                held.append((o, rpc))
+            for o in [q for q in requests if q['name'] not in ('locked',) and q['like'] is None][:max(1, n_out)]:
+                r = timed(o['fn'], ma)
+                if r is None or r[0] != 'value':
+                    return '%s: %s was not accepted on the session that is still live after a message that could not be parsed: %r' % (tag, o['name'], r and r[1])
+                if not st.srv.has(r[1].id):
+                    return '%s: the request %s made after a message that could not be parsed never reached the peer' % (tag, o['name'])
+                held.append((o, r[1]))
         sync_res = {}
         def sync_call():
             t0 = now()
@@ -487,8 +558,12 @@ def core_cases():
     """each transport once with everything advertised (every operation of the base table is a request), the three profiles that
     replace base operations / add capability-dependent ones on different transports"""
     return [dict(kind='unix', profile='default', n_out=2, answered=1, loss='partial', twin_close='with/raise'),
-            dict(kind='ssh', profile='junos', n_out=2, answered=0, loss='close', closing_first=True, twin_close='with',
+            # history: payloads that are not XML first (the junos hook hands an RPCError back for them: non-fatal broadcast), requests, loss
+            dict(kind='ssh', profile='junos', n_out=2, answered=0, loss='close', closing_first=True, twin_close='with', nonfatal=[0, 3],
                  closing=['with/raise', 'close', 'close', 'close_session/async', 'with', 'close_session', 'with/request']),
+            # custom handler class; the payload arrives while requests are outstanding, others follow it
+            dict(kind='unix', profile='default', hook='ValueError', nonfatal=[1], nonfatal_at='mid', n_out=2, answered=1, loss='close',
+                 closing=['close_session', 'close'], out_ops=['get', 'get_config', 'lock', 'commit']),
             dict(kind='tls', profile='sros', n_out=1, answered=1, loss='close', base11=True, twin_close='with/request')]
 
 def gen_case(rng, kind=None):
@@ -501,6 +576,14 @@ def gen_case(rng, kind=None):
     c['closing'] = [rng.choice(CLOSING) for _ in range(rng.choice([1, 2, 3, 5, 8]))]
     c['closing_first'] = rng.random() < 0.5
     c['twin_close'] = rng.choice(TWIN_CLOSING)
+    # the earlier history of the session: payloads that are not XML (dropped, or broadcast as a NON-fatal error: junos, custom handler)
+    if rng.random() < 0.5:
+        from .lts import HOSTILE
+        if rng.random() < 0.6: c['hook'] = rng.choice(HOOKS)
+        elif rng.random() < 0.5: c['profile'] = 'junos'
+        c['nonfatal'] = [rng.randrange(len(HOSTILE)) for _ in range(rng.choice([1, 1, 2, 3]))]
+        c['nonfatal_at'] = rng.choice(['first', 'mid'])
+        if c['profile'] == 'junos' and not c.get('hook'): c['nonfatal'] = [v if v != 2 else 0 for v in c['nonfatal']]   # 2 ends a junos session (C14)
     return c
 
 def all_cases():
@@ -518,6 +601,14 @@ def all_cases():
         for i, first in enumerate(CLOSING):
             out.append(dict(kind=kind, profile='default', n_out=1, answered=0, loss=('close', 'partial')[i % 2], closing=[first, first, 'close', first],
                             closing_first=(i % 2 == 0), twin_close=TWIN_CLOSING[i % len(TWIN_CLOSING)], out_ops=['get']))
+        # a non-fatal error broadcast earlier in the life of the session: every hostile payload x junos / every custom hook, both places
+        from .lts import HOSTILE
+        for v in (v for v in range(len(HOSTILE)) if v != 2):      # 2: the junos hook repairs it into text that is still not XML: the session ends on it (C14)
+            out.append(dict(kind=kind, profile='junos', n_out=1, answered=v % 2, loss='close', nonfatal=[v], nonfatal_at=('first', 'mid')[v % 2],
+                            closing=['close'], out_ops=['get', 'get_config', 'lock']))
+        for i, hook in enumerate(HOOKS):
+            out.append(dict(kind=kind, profile=('default', 'junos', 'huawei')[i % 3], hook=hook, n_out=2, answered=i % 2, loss=('close', 'partial')[i % 2],
+                            nonfatal=[i, i + 1], nonfatal_at=('mid', 'first')[i % 2], closing=['close_session'], out_ops=['get', 'get_config', 'lock', 'unlock']))
     return out
 
 def judge(case, tries=2):
